@@ -52,12 +52,13 @@ func (s *SignedLatency) OnPing(pingReqID uint32) error {
 	if !ok {
 		return errors.New("ping request not found")
 	}
-
-	s.Iteration--
-	s.PingRequests[pingReqID] = LatencyMetricsData{
-		Start: pingRequest.Start,
-		End:   time.Now(),
+	if !pingRequest.End.IsZero() {
+		return errors.New("ping request already answered")
 	}
+
+	pingRequest.End = time.Now()
+	s.Iteration--
+	s.PingRequests[pingReqID] = pingRequest
 
 	if s.Iteration > 0 {
 		// Send new ping request
@@ -81,7 +82,8 @@ func (s *SignedLatency) OnPing(pingReqID uint32) error {
 		mean += latency
 	}
 	mean = float32(math.Round(float64(mean) / float64(len(s.PingRequests))))
-	last = latencies[len(latencies)-1]
+	// the last latency is the one of the round that has just been answered
+	last = float32(pingRequest.End.Sub(pingRequest.Start).Microseconds())
 
 	sort.Slice(latencies, func(i, j int) bool {
 		return latencies[i] < latencies[j]
